@@ -123,6 +123,12 @@ def gen_case(st, tier):
         else:
             d["sched"] = {"kind": "pct", "depth": rs.choice([1, 2, 3]), "horizon": rs.choice([100, 400, 1500]),
                           "seed": rs.getrandbits(32)}
+        if rs.random() < 0.35:
+            d["sched"]["opcode"] = True          # pre-emption between two bytecodes of a line
+            if d["sched"]["kind"] == "walk":
+                d["sched"]["p"] = rs.choice([0.01, 0.03, 0.08])
+            else:
+                d["sched"]["horizon"] *= 6
     case["driver"] = d
     return case
 
@@ -163,19 +169,24 @@ def run_eval(case):
             formats.datetime = FakeDatetime
             pools = []
 
+            the_pool = None
+            if driver["mode"] == "pool":
+                sched = dict(driver["sched"])
+                the_pool = SimPool(random.Random(sched.get("seed", 0)), max_workers=driver.get("workers", 2), policy=sched,
+                                   traced_files=TRACED,
+                                   opcode_files=((evaluators.__file__, dr.__file__, plugins.__file__) if sched.get("opcode") else ()),
+                                   max_steps=80000 if sched.get("opcode") else 20000)
+                pools.append(the_pool)
+
             @contextmanager
             def fake_pool(parallel, prefix, kwargs):
                 if not parallel:
                     yield None
                     return
-                sched = dict(driver["sched"])
-                pool = SimPool(random.Random(sched.get("seed", 0)), max_workers=driver.get("workers", 2), policy=sched,
-                               traced_files=TRACED)
-                pools.append(pool)
                 try:
-                    yield pool
+                    yield the_pool
                 finally:
-                    pool.shutdown()
+                    the_pool.shutdown()
             insights.get_pool = fake_pool
             try:
                 world.make_observers()
@@ -189,6 +200,8 @@ def run_eval(case):
                 mode = driver["mode"]
                 res.escaped = None
                 res.response = None
+                if the_pool is not None:
+                    the_pool.trace_main_now()          # every frame of the evaluator is created under the tracer
                 try:
                     if ev in ("single", "insights"):
                         cls = evaluators.SingleEvaluator if ev == "single" else evaluators.InsightsEvaluator
@@ -214,6 +227,9 @@ def run_eval(case):
                     raise
                 except Exception as ex:
                     res.escaped = ex
+                finally:
+                    if the_pool is not None:
+                        the_pool.shutdown()
                 res.sig = w1.broker_signature(world, [broker])
                 res.ev = list(world.ev)
                 res.pool = pools[0] if pools else None
@@ -500,7 +516,8 @@ class C12(w1.EngineCheck):
             res = run_eval(case)
             if res.pool is not None:
                 c = _copy(case)
-                c["driver"]["sched"] = {"kind": "replay", "switches": [list(x) for x in res.pool.switches]}
+                c["driver"]["sched"] = {"kind": "replay", "switches": [list(x) for x in res.pool.switches],
+                                        "opcode": bool(d["sched"].get("opcode"))}
                 yield c
         if d["mode"] == "pool":
             c = _copy(case)
@@ -513,7 +530,7 @@ class C12(w1.EngineCheck):
                 while chunk >= 1:
                     for a in range(0, n, chunk):
                         c = _copy(case)
-                        c["driver"]["sched"] = {"kind": "replay", "switches": sw[:a] + sw[a + chunk:]}
+                        c["driver"]["sched"] = {"kind": "replay", "switches": sw[:a] + sw[a + chunk:], "opcode": bool(d["sched"].get("opcode"))}
                         yield c
                     chunk //= 2
         elif d["mode"] == "incr":
